@@ -368,9 +368,24 @@ def random_looks(rng, nsteps, via):
     return looks
 
 
+def deep_history(rng, via, pool=None):
+    """a tall stack: 17-40 nested pushes, nearly all inheriting (a run of non-inheriting pushes keeps a stack shallow in effect),
+    looked up all the way up and all the way down again - implementations that change representation with depth live here"""
+    ops = []
+    up = rng.randint(17, 40)
+    for _ in range(up):
+        op = dict(k="push", th=random_theme(rng, pool), inh=rng.random() < 0.93)
+        if via == "stack" and rng.random() < 0.4:
+            op["pos"] = True
+        ops.append(op)
+    for _ in range(rng.choice([up, up, rng.randint(0, up)])):
+        ops.append(dict(k="pop"))
+    return ops
+
+
 def random_case(rng, pool=None):
     via = "stack" if rng.random() < 0.2 else "console"
-    ops = random_history(rng, rng.randint(1, 14), via, pool)
+    ops = deep_history(rng, via, pool) if rng.random() < 0.05 else random_history(rng, rng.randint(1, 14), via, pool)
     return dict(base=random_base(rng, pool), ops=ops, via=via, pre=rng.random() < 0.5, looks=random_looks(rng, len(ops), via))
 
 
